@@ -740,76 +740,239 @@ theorem grace1_stops_after_unpin :
           { stableExists := true, stableSel := some "v1", canarySvc := some "v2", g := () }, Mem.empty,
           by decide, by decide, by decide⟩
 
-/-! ## a stable Service without `spec.selector` (finding `selectorlessStable`) -/
+/-! ## a stable Service without `spec.selector` (fixed finding `selectorlessStable`) -/
 
 /-- with a selector on the stable Service `doTrafficRoutingB` is `doTrafficRoutingX`: every theorem of this file
     about `doTrafficRoutingX` is a theorem about `DoTrafficRouting` under the hypothesis "the stable Service
     carries a selector" -/
 theorem doTRB_of_selector (ops : StratOps S) (P : Option (Provider S G)) (c : XCtx S) (a : Api) (n : XNet G) (m : Mem) :
     doTrafficRoutingB ops P c a n m false = doTrafficRoutingX ops P c a n m := by
-  simp [doTrafficRoutingB, panicsBare]
+  simp [doTrafficRoutingB, refusesBare]
 
-theorem doTRB_outside_guard (ops : StratOps S) (P : Option (Provider S G)) (c : XCtx S) (a : Api) (n : XNet G) (m : Mem)
-    (bare : Bool) (hg : panicsBare ops c a n bare = false) :
+/-- … and so it is whenever the call does not get as far as generating the canary Service from a selector-less
+    stable Service -/
+theorem doTRB_outside_refusal (ops : StratOps S) (P : Option (Provider S G)) (c : XCtx S) (a : Api) (n : XNet G) (m : Mem)
+    (bare : Bool) (hg : refusesBare ops c a n bare = false) :
     doTrafficRoutingB ops P c a n m bare = doTrafficRoutingX ops P c a n m := by
   simp [doTrafficRoutingB, hg]
 
-/-- **C09 / C03 (`no_panicB`, partial: outside known finding `selectorlessStable`)** — with a provider whose
-    `EnsureRoutes` does not panic, `DoTrafficRouting` does not panic, whatever the state of the Services, the
-    context and the API faults — unless the stable Service has no selector and the call reaches
-    `createCanaryService` (`panicsBare`; see `no_panicB_full_FALSE`). -/
-theorem no_panicB_partial (ops : StratOps S) (P : Provider S G) (hP : ∀ a g s, (P.ensure a g s).panic = false)
-    (c : XCtx S) (a : Api) (n : XNet G) (m : Mem) (bare : Bool) (hg : panicsBare ops c a n bare = false) :
+/-- **C09 / C03 (`no_panicB`, full strength)** — with a provider whose `EnsureRoutes` does not panic,
+    `DoTrafficRouting` does not panic: for **every** state of the Services — a stable Service without any selector
+    included —, every context, every write budget and read fault.
+    (Before rollouts commit FIXCOMMIT-selectorless this held only outside the region `refusesBare`, where
+    `createCanaryService` assigned into the nil selector map: fixed finding `selectorlessStable`.) -/
+theorem no_panicB (ops : StratOps S) (P : Provider S G) (hP : ∀ a g s, (P.ensure a g s).panic = false)
+    (c : XCtx S) (a : Api) (n : XNet G) (m : Mem) (bare : Bool) :
     (doTrafficRoutingB ops (some P) c a n m bare).panic = false := by
-  rw [doTRB_outside_guard ops (some P) c a n m bare hg]
-  rcases doTRX_cases ops (some P) c a n m with ⟨_, _, hp, _⟩ | ⟨_, _, _, _, _, _, a2, _, _, _, he⟩
-  · exact hp
-  · rw [he]
-    unfold routeStepX
-    simp only [hP, Bool.false_eq_true, if_false]
-    split <;> rfl
+  cases hg : refusesBare ops c a n bare
+  · rw [doTRB_outside_refusal ops (some P) c a n m bare hg]
+    rcases doTRX_cases ops (some P) c a n m with ⟨_, _, hp, _⟩ | ⟨_, _, _, _, _, _, a2, _, _, _, he⟩
+    · exact hp
+    · rw [he]
+      unfold routeStepX
+      simp only [hP, Bool.false_eq_true, if_false]
+      split <;> rfl
+  · simp [doTrafficRoutingB, hg, XOut.same]
 
-/-- The full-strength statement is FALSE on the unchanged code: a stable Service without selector, a first
-    weight step, and `DoTrafficRouting` panics (known finding `selectorlessStable`); nothing was written and
-    nothing changed, so the next reconcile panics in the same way (`selectorless_crash_loops`). -/
-theorem no_panicB_full_FALSE :
-    ∃ (c : XCtx Strat) (n : XNet Unit) (m : Mem),
-      (doTrafficRoutingB stratOps (some idle) c Api.ok n m true).panic = true := by
+/-- two `Get`s that were answered leave the read fault as it was -/
+theorem readFailed_two_reads (a : Api) (h1 : a.read.1 = false) (h2 : a.read.2.read.1 = false) :
+    readFailed a a.read.2.read.2 = false := by
+  have e1 : a.read.2.armed = a.armed := by
+    rcases Api.read_cases a with ⟨h, _, _⟩ | ⟨_, h⟩
+    · rw [h1] at h; cases h
+    · exact h
+  have e2 : a.read.2.read.2.armed = a.read.2.armed := by
+    rcases Api.read_cases a.read.2 with ⟨h, _, _⟩ | ⟨_, h⟩
+    · rw [h2] at h; cases h
+    · exact h
+  unfold readFailed
+  rw [e2, e1]
+  cases a.armed <;> rfl
+
+/-- **C03 / C09 (`selectorless_refused`)** — where the call would have to generate the canary Service from a stable
+    Service without selector, it **returns an error** and leaves everything as it was: no write, Services, provider
+    objects, expectations and `LastUpdateTime` unchanged, no read reported as failed, no panic, not *done*.  The
+    user sees the error on every reconcile until the Service gets a selector (or a canary Service exists);
+    nothing is rewritten silently.  Whatever the provider (`P = none` included). -/
+theorem selectorless_refused (ops : StratOps S) (P : Option (Provider S G)) (c : XCtx S) (a : Api) (n : XNet G)
+    (m : Mem) (hg : refusesBare ops c a n true = true) :
+    (doTrafficRoutingB ops P c a n m true).err = true ∧ (doTrafficRoutingB ops P c a n m true).done = false ∧
+    (doTrafficRoutingB ops P c a n m true).panic = false ∧
+    (doTrafficRoutingB ops P c a n m true).net = n ∧ (doTrafficRoutingB ops P c a n m true).mem = m ∧
+    (doTrafficRoutingB ops P c a n m true).writes = [] ∧ (doTrafficRoutingB ops P c a n m true).touched = false ∧
+    readFailed a (doTrafficRoutingB ops P c a n m true).a = false := by
+  have hr : a.read.1 = false ∧ a.read.2.read.1 = false := by
+    simp only [refusesBare, Bool.and_eq_true, Bool.not_eq_true'] at hg
+    exact ⟨hg.1.1.1.1.1.1.1.1.2, hg.1.1.2⟩
+  have e : doTrafficRoutingB ops P c a n m true = .same false true n m a.read.2.read.2 := by
+    simp [doTrafficRoutingB, hg]
+  rw [e]
+  exact ⟨rfl, rfl, rfl, rfl, rfl, rfl, rfl, readFailed_two_reads a hr.1 hr.2⟩
+
+theorem memSame_refl (x : Mem) : memSame x x = true := by simp [memSame]
+
+/-- the same as the decidable oracle the driver evaluates on the implementation's output -/
+theorem selectorless_refused_oracle (ops : StratOps S) (P : Option (Provider S G)) (c : XCtx S) (a : Api) (n : XNet G)
+    (m : Mem) (hg : refusesBare ops c a n true = true) :
+    selectorlessRefusedX true m (doTrafficRoutingB ops P c a n m true) = true := by
+  obtain ⟨he, hd, _, _, hm, hw, ht, _⟩ := selectorless_refused ops P c a n m hg
+  simp [selectorlessRefusedX, he, hd, hw, ht, hm, memSame_refl]
+
+/-- `selectorless_refused` is not vacuous: a stable Service without selector, a first weight step — the call is
+    in the region and returns the error, having written nothing (test on a literal) -/
+theorem selectorless_refused_witness :
+    ∃ (c : XCtx Strat) (n : XNet Unit) (m : Mem), refusesBare stratOps c Api.ok n true = true ∧
+      (doTrafficRoutingB stratOps (some idle) c Api.ok n m true).err = true ∧
+      (doTrafficRoutingB stratOps (some idle) c Api.ok n m true).panic = false ∧
+      (doTrafficRoutingB stratOps (some idle) c Api.ok n m true).writes = [] := by
   refine ⟨{ hasRef := true, grace := 3, strategy := { traffic := some "20%", mts := [], rhm := none },
             disableGen := false, stableRev := "v1", canaryRev := "v2", lastUpdate := .none },
-          { stableExists := true, stableSel := none, canarySvc := none, g := () }, Mem.empty, by decide⟩
+          { stableExists := true, stableSel := none, canarySvc := none, g := () }, Mem.empty,
+          by decide, by decide, by decide, by decide⟩
 
-/-- inside the guard the call leaves everything as it was — no write, Services, provider objects, expectations
-    and `LastUpdateTime` unchanged — and is not *done*: the same call on the same state panics again, on every
-    reconcile (the controller does not recover panics: a crash loop), and the step never completes.
-    (C03 / C07: `doTRX_converges` needs the hypothesis "the stable Service carries a selector".) -/
-theorem selectorless_crash_loops (ops : StratOps S) (P : Option (Provider S G)) (c : XCtx S) (a : Api) (n : XNet G)
-    (m : Mem) (hg : panicsBare ops c a n true = true) :
-    doTrafficRoutingB ops P c a n m true = .panicked n m a ∧
-    (doTrafficRoutingB ops P c a n m true).done = false ∧
-    (doTrafficRoutingB ops P c a n m true).net = n ∧ (doTrafficRoutingB ops P c a n m true).mem = m ∧
-    (doTrafficRoutingB ops P c a n m true).writes = [] ∧ (doTrafficRoutingB ops P c a n m true).touched = false := by
-  simp [doTrafficRoutingB, hg, XOut.panicked]
-
-/-- **C03 (`doneB_means_routed`)** — *done* is never reported by a panicking call: a `DoTrafficRouting` that
+/-- **C03 (`doneB_means_routed`)** — *done* is never reported by a refused call: a `DoTrafficRouting` that
     reports *done* over a possibly selector-less stable Service is a `doTrafficRoutingX` call that reports
     *done*, so `doneX_means_routed` applies as it stands. -/
 theorem doneB_is_doneX (ops : StratOps S) (P : Option (Provider S G)) (c : XCtx S) (a : Api) (n : XNet G) (m : Mem)
     (bare : Bool) (hd : (doTrafficRoutingB ops P c a n m bare).done = true) :
     doTrafficRoutingB ops P c a n m bare = doTrafficRoutingX ops P c a n m := by
-  cases hg : panicsBare ops c a n bare
-  · exact doTRB_outside_guard ops P c a n m bare hg
-  · simp [doTrafficRoutingB, hg, XOut.panicked] at hd
+  cases hg : refusesBare ops c a n bare
+  · exact doTRB_outside_refusal ops P c a n m bare hg
+  · simp [doTrafficRoutingB, hg, XOut.same] at hd
 
 /-- the other Manager calls do not depend on the selector map: `PatchStableService` / `RestoreStableService`
     send a strategic-merge patch built from a string (`{"spec":{"selector":{key:rev}}}`), which the API server
     applies to a nil selector as well — checked against the real code by the suite (state `stableBare`). -/
 theorem selectorless_only_create (ops : StratOps S) (c : XCtx S) (a : Api) (n : XNet G) (bare : Bool)
-    (h : panicsBare ops c a n bare = true) :
+    (h : refusesBare ops c a n bare = true) :
     bare = true ∧ n.canarySvc = none ∧ n.stableSel = none ∧ c.noGen = false := by
-  simp only [panicsBare, Bool.and_eq_true, Bool.not_eq_true', Option.isNone_iff_eq_none] at h
+  simp only [refusesBare, Bool.and_eq_true, Bool.not_eq_true', Option.isNone_iff_eq_none] at h
   obtain ⟨⟨⟨⟨⟨⟨⟨⟨⟨⟨⟨hb, _⟩, _⟩, _⟩, _⟩, _⟩, hn⟩, _⟩, _⟩, _⟩, hc⟩, hs⟩ := h
   exact ⟨hb, hc, hs, hn⟩
+
+/-! ## a provider that cannot be built (`newNetworkProvider` returns an error)
+
+A Gateway API ref without a canary Service of its own (fixed finding `sameServiceGateway`), an Ingress class
+without Lua script, a ref without any provider: every Manager call that needs the provider returns the error,
+and **no provider object is read or written**. -/
+
+/-- `RestoreGateway` without provider -/
+theorem refused_restoreGateway (c : XCtx S) (a : Api) (n : XNet G) (m : Mem) :
+    restoreGatewayX (none : Option (Provider S G)) c a n m = .same false c.hasRef n m a := by
+  unfold restoreGatewayX
+  by_cases href : c.hasRef = true
+  · simp [href]
+  · have : c.hasRef = false := by simpa using href
+    simp [this]
+
+/-- `RouteAllTrafficToNewVersion` without provider -/
+theorem refused_routeAll (ops : StratOps S) (c : XCtx S) (a : Api) (n : XNet G) (m : Mem) :
+    routeAllToNewX ops (none : Option (Provider S G)) c a n m = .same false c.hasRef n m a := by
+  unfold routeAllToNewX
+  by_cases href : c.hasRef = true
+  · simp [href]
+  · have : c.hasRef = false := by simpa using href
+    simp [this]
+
+/-- `DoTrafficRouting` without provider: the provider's objects are untouched, no provider write, no panic;
+    *done* only when there is nothing to route -/
+theorem refused_doTR (ops : StratOps S) (c : XCtx S) (a : Api) (n : XNet G) (m : Mem) (bare : Bool) :
+    (doTrafficRoutingB ops (none : Option (Provider S G)) c a n m bare).net.g = n.g ∧
+    providerTouched (doTrafficRoutingB ops (none : Option (Provider S G)) c a n m bare).writes = false ∧
+    (doTrafficRoutingB ops (none : Option (Provider S G)) c a n m bare).panic = false ∧
+    ((doTrafficRoutingB ops (none : Option (Provider S G)) c a n m bare).done = true →
+      c.hasRef = false ∨ isStep ops c.strategy = false) := by
+  cases hg : refusesBare ops c a n bare
+  · rw [doTRB_outside_refusal ops none c a n m bare hg]
+    rcases doTRX_cases ops (none : Option (Provider S G)) c a n m with
+      ⟨h1, h2, h3, _, _, h6, _, _⟩ | ⟨_, _, _, _, _, _, a2, _, _, _, he⟩
+    · exact ⟨h1, h2.not_provider, h3, fun hd => (h6 hd).1⟩
+    · rw [he]
+      exact ⟨rfl, rfl, rfl, fun hd => by cases hd⟩
+  · have e : doTrafficRoutingB ops (none : Option (Provider S G)) c a n m bare = .same false true n m a.read.2.read.2 := by
+      simp [doTrafficRoutingB, hg]
+    rw [e]
+    exact ⟨rfl, rfl, rfl, fun hd => by cases hd⟩
+
+/-- `FinalisingTrafficRouting` without provider: at most the stable Service is un-pinned; the provider's objects
+    and the canary Service are left alone; no panic; never *done* -/
+theorem refused_finalising (c : XCtx S) (a : Api) (n : XNet G) (m : Mem) :
+    (finalisingTrafficRoutingX (none : Option (Provider S G)) c a n m).net.g = n.g ∧
+    (finalisingTrafficRoutingX (none : Option (Provider S G)) c a n m).net.canarySvc = n.canarySvc ∧
+    ((finalisingTrafficRoutingX (none : Option (Provider S G)) c a n m).writes = [] ∨
+      (finalisingTrafficRoutingX (none : Option (Provider S G)) c a n m).writes = ["unpinStable"]) ∧
+    (finalisingTrafficRoutingX (none : Option (Provider S G)) c a n m).panic = false ∧
+    (c.hasRef = true → (finalisingTrafficRoutingX (none : Option (Provider S G)) c a n m).done = false) := by
+  obtain ⟨hg, hc, _, hw, hp, _⟩ := rs_specX c a n m
+  unfold finalisingTrafficRoutingX
+  by_cases href : c.hasRef = true
+  · simp only [href, not_true_eq_false, if_false]
+    by_cases h1 : (restoreStableServiceX c a n m).err = true ∨ (restoreStableServiceX c a n m).done = true
+    · simp only [h1, if_true]
+      exact ⟨hg, hc, hw, hp, fun _ => trivial⟩
+    · simp only [h1, if_false, refused_restoreGateway, href, XOut.same, Bool.false_eq_true, true_or, if_true,
+        List.append_nil]
+      exact ⟨hg, hc, hw, trivial, fun _ => trivial⟩
+  · have : c.hasRef = false := by simpa using href
+    simp [this]
+
+/-- **C05 / C07 (`refused_untouched`)** — the decidable oracle the driver evaluates on the implementation's output
+    in the region of a refused configuration holds of every Manager call without provider -/
+theorem refused_untouched (ops : StratOps S) (c : XCtx S) (a : Api) (n : XNet G) (m : Mem) (bare : Bool) :
+    refusedX "doTrafficRouting" c (isStep ops c.strategy) true
+      (doTrafficRoutingB ops (none : Option (Provider S G)) c a n m bare) = true ∧
+    refusedX "finalisingTrafficRouting" c (isStep ops c.strategy) true
+      (finalisingTrafficRoutingX (none : Option (Provider S G)) c a n m) = true ∧
+    refusedX "restoreGateway" c (isStep ops c.strategy) true (restoreGatewayX (none : Option (Provider S G)) c a n m) = true ∧
+    refusedX "routeAllToNew" c (isStep ops c.strategy) true
+      (routeAllToNewX ops (none : Option (Provider S G)) c a n m) = true := by
+  refine ⟨?_, ?_, ?_, ?_⟩
+  · obtain ⟨_, hw, _, hd⟩ := refused_doTR ops c a n m bare
+    simp only [refusedX, hw, Bool.not_false, Bool.true_and]
+    cases hdd : (doTrafficRoutingB ops (none : Option (Provider S G)) c a n m bare).done
+    · simp
+    · rcases hd hdd with h | h <;> simp [h]
+  · obtain ⟨_, _, hw, _, hd⟩ := refused_finalising (G := G) c a n m
+    have hpt : providerTouched (finalisingTrafficRoutingX (none : Option (Provider S G)) c a n m).writes = false := by
+      rcases hw with h | h <;> rw [h] <;> decide
+    simp only [refusedX, hpt, Bool.not_false, Bool.true_and]
+    by_cases href : c.hasRef = true
+    · simp [hd href]
+    · have : c.hasRef = false := by simpa using href
+      simp [this]
+  · rw [refused_restoreGateway]
+    cases h : c.hasRef <;> simp [refusedX, XOut.same, providerTouched, h]
+  · rw [refused_routeAll]
+    cases h : c.hasRef <;> simp [refusedX, XOut.same, providerTouched, h]
+
+/-- **C07 (`refused_is_reported`)** — a configuration whose provider cannot be built is reported to the caller, not
+    retried silently: on a healthy API server, with the stable Service present, the revisions known and no grace
+    period running, `DoTrafficRouting` for a step that has something to route returns the error in this round
+    when the Services are in place (always so when no canary Service is generated), and otherwise in the next
+    round, after the round that put the Services in place. -/
+theorem refused_is_reported (ops : StratOps S) (c : XCtx S) (n : XNet G) (m : Mem) (href : c.hasRef = true)
+    (hstep : isStep ops c.strategy = true) (hex : n.stableExists = true)
+    (hw : ¬ (c.lastUpdate = .fresh ∧ c.doGrace > 0))
+    (hrev : c.noGen = true ∨ (c.stableRev ≠ "" ∧ c.canaryRev ≠ "")) :
+    (servicesInPlace c n = true → (doTrafficRoutingX ops (none : Option (Provider S G)) c Api.ok n m).err = true) ∧
+    (servicesInPlace c n = false →
+      (doTrafficRoutingX ops (none : Option (Provider S G)) c Api.ok
+        (doTrafficRoutingX ops (none : Option (Provider S G)) c Api.ok n m).net m).err = true) := by
+  constructor
+  · intro hin
+    rw [doTRX_inPlace ops none c Api.ok n m href hstep rfl hex hw hin hrev]
+    rfl
+  · intro hnin
+    obtain ⟨n2, ws, hs, hin2, _, hse, hnil⟩ := svcStepX_healthy c n hrev
+    have hws : ws ≠ [] := by
+      intro h; have := hnil h; subst this; rw [hin2] at hnin; cases hnin
+    have hnet : (doTrafficRoutingX ops (none : Option (Provider S G)) c Api.ok n m).net = n2 := by
+      have hnos := (isStep_true_iff ops c.strategy).mp hstep
+      unfold doTrafficRoutingX
+      simp only [href, not_true_eq_false, if_false, hnos, Bool.false_eq_true, Api.read_ok, hex, hw, hs, ne_eq, hws,
+        not_false_eq_true, if_true]
+    rw [hnet, doTRX_inPlace ops none c Api.ok n2 m href hstep rfl (by rw [hse]; exact hex) hw hin2 hrev]
+    rfl
 
 /-! ## composite: all or nothing -/
 
